@@ -162,7 +162,9 @@ func c19Infer(c *vk.Ctx, id, ts string, soundness bool) (accepted bool) {
 		if !ok || !hasRow(dc) {
 			return
 		}
-		wr, err := reg.Wrap(dc, ts)
+		// read back as values of the REQUESTED type (a column that reports the right type but
+		// converts on other parameters must not agree with itself)
+		wr, err := reg.WrapAs(dc, t, ts)
 		if err != nil {
 			return
 		}
